@@ -114,6 +114,9 @@ func parseFile(path string) (res map[string]any) {
 	return map[string]any{"st": "ok", "data": out}
 }
 
+var rtCount int
+var staleConfig = []byte(strings.Repeat("[stale]\nleft_over = \"from an earlier, longer file\"\nn = 12345\n", 150))
+
 func main() {
 	dir, err := os.MkdirTemp("", "fv_tomldrv_")
 	if err != nil {
@@ -153,7 +156,15 @@ func main() {
 						cm[unhex(s)] = m
 					}
 				}
+				// the path alternately does not exist or holds a longer, older configuration: what is read back must
+				// be what was written now, whatever the file held before (seed C20e: O_TRUNC dropped)
 				os.Remove(path)
+				rtCount++
+				if rtCount%2 == 0 {
+					if e := os.WriteFile(path, staleConfig, 0o644); e != nil {
+						panic(e)
+					}
+				}
 				ans := map[string]any{"id": r.ID}
 				func() {
 					defer func() {
